@@ -278,13 +278,39 @@ impl Env {
         }
     }
 
+    /// Text of label `idx`. Indices below the corpus length are corpus lines; larger ones are
+    /// recombinations (idx = base + len * v, v >= 1): the phoneme context of line `base`, the
+    /// A..E groups of a second line, F..J of a third and K of a fourth. Every group keeps the shape
+    /// a front end emits; the number of distinct label strings is no longer bounded by the corpus.
+    pub fn line_text(&self, idx: u32) -> String {
+        let n = self.corpus.len();
+        let base = idx as usize % n;
+        let v = idx as usize / n;
+        let l = &self.corpus[base];
+        if v == 0 {
+            return l.clone();
+        }
+        let cut = |s: &str| -> Option<(usize, usize, usize)> { Some((s.find("/A:")?, s.find("/F:")?, s.find("/K:")?)) };
+        let x = &self.corpus[(base + v * 97) % n];
+        let y = &self.corpus[(base + v * 389 + 11) % n];
+        let z = &self.corpus[(base + v * 31 + 5) % n];
+        match (cut(l), cut(x), cut(y), cut(z)) {
+            (Some((la, _, _)), Some((xa, xf, _)), Some((_, yf, yk)), Some((_, _, zk))) if la < l.len() && xa < xf && yf < yk => {
+                format!("{}{}{}{}", &l[..la], &x[xa..xf], &y[yf..yk], &z[zk..])
+            }
+            _ => l.clone(),
+        }
+    }
+
     pub fn label(&mut self, idx: u32) -> Result<jlabel::Label, String> {
         if let Some(l) = self.labels.get(&idx) {
             return Ok(l.clone());
         }
-        let line = self.corpus.get(idx as usize).ok_or("corpus index out of range")?;
-        let l: jlabel::Label = line.parse().map_err(|e| format!("corpus line {} does not parse: {:?}", idx, e))?;
-        self.labels.insert(idx, l.clone());
+        let line = self.line_text(idx);
+        let l: jlabel::Label = line.parse().map_err(|e| format!("label {} ({}) does not parse: {:?}", idx, line, e))?;
+        if self.labels.len() < 4096 {
+            self.labels.insert(idx, l.clone());
+        }
         Ok(l)
     }
 
@@ -293,12 +319,12 @@ impl Env {
             .iter()
             .enumerate()
             .map(|(i, idx)| {
-                let l = &self.corpus[(*idx as usize) % self.corpus.len()];
+                let l = self.line_text(*idx);
                 if utt.timed > 0 {
                     let d = utt.timed as u64 * 10_000;
                     format!("{} {} {}", i as u64 * d, (i as u64 + 1) * d, l)
                 } else {
-                    l.clone()
+                    l
                 }
             })
             .collect()
